@@ -166,10 +166,12 @@ Section Main.
 
   (* where the map-less fast paths agree with the specification *)
   Definition auto_key_ok (n : nat) (k : key C) : bool :=
-    match to_Z (fst k) with
-    | Some z => if snd k then negb ((- Z.of_nat n <=? z) && (z <? 0))
-                else negb ((0 <=? z) && (z <? Z.of_nat n))
-    | None => true
+    match snd k, to_Z (fst k) with
+    | KNone, _ => false
+    | _, None => true
+    | KInt, Some z => negb ((- Z.of_nat n <=? z) && (z <? 0))
+    | KBool, Some z => (0 <=? z) && (z <? Z.of_nat n)
+    | KOther, Some z => negb ((0 <=? z) && (z <? Z.of_nat n))
     end.
 
   Lemma index_of_not_int n c : to_Z c = None -> index_of ceqb c (map of_Z (iota n)) = None.
@@ -181,28 +183,32 @@ Section Main.
   Lemma auto_lookup_refines n k : auto_key_ok n k = true ->
     M_loc_to_iloc ceqb to_Z (M_index_auto of_Z n) k = S_lookup ceqb (map of_Z (iota n)) k.
   Proof.
-    unfold auto_key_ok, M_loc_to_iloc, S_lookup, M_index_auto, key_int. cbn [ix_map ix_labels].
+    unfold auto_key_ok, M_loc_to_iloc, S_lookup, M_index_auto, positions_getitem. cbn [ix_map ix_labels].
     unfold zlen. rewrite map_length, iota_length.
     destruct k as [c t]. cbn [fst snd].
     destruct (to_Z c) as [z|] eqn:Ez.
-    - apply of_to in Ez as Hc. subst c. rewrite index_of_auto. destruct t.
-      + intros G. destruct ((- Z.of_nat n <=? z) && (z <? Z.of_nat n)) eqn:A,
+    - apply of_to in Ez as Hc. subst c. rewrite index_of_auto. destruct t; intros G.
+      + destruct ((- Z.of_nat n <=? z) && (z <? Z.of_nat n)) eqn:A,
           ((0 <=? z) && (z <? Z.of_nat n)) eqn:B; try reflexivity; lia.
-      + intros G. destruct ((0 <=? z) && (z <? Z.of_nat n)) eqn:B; [discriminate|reflexivity].
-    - intros _. rewrite (index_of_not_int n c Ez). destruct t; reflexivity.
+      + rewrite G. reflexivity.
+      + discriminate.
+      + destruct ((0 <=? z) && (z <? Z.of_nat n)) eqn:B; [discriminate|reflexivity].
+    - rewrite (index_of_not_int n c Ez). destruct t; intros G; try reflexivity. discriminate.
   Qed.
 
   Lemma auto_contains_refines n k : auto_key_ok n k = true ->
     M_contains ceqb to_Z (M_index_auto of_Z n) k = S_contains ceqb (map of_Z (iota n)) k.
   Proof.
-    unfold auto_key_ok, M_contains, S_contains, M_index_auto, key_int. cbn [ix_map ix_labels].
+    unfold auto_key_ok, M_contains, S_contains, M_index_auto, key_int, int_typed. cbn [ix_map ix_labels].
     unfold zlen. rewrite map_length, iota_length, (index_of_memb C ceqb ceqb_spec).
     destruct k as [c t]. cbn [fst snd].
     destruct (to_Z c) as [z|] eqn:Ez.
-    - apply of_to in Ez as Hc. subst c. rewrite index_of_auto. destruct t.
-      + intros _. destruct ((0 <=? z) && (z <? Z.of_nat n)); reflexivity.
-      + intros G. destruct ((0 <=? z) && (z <? Z.of_nat n)) eqn:B; [discriminate|reflexivity].
-    - intros _. rewrite (index_of_not_int n c Ez). destruct t; reflexivity.
+    - apply of_to in Ez as Hc. subst c. rewrite index_of_auto. destruct t; intros G.
+      + destruct ((0 <=? z) && (z <? Z.of_nat n)); reflexivity.
+      + rewrite G. reflexivity.
+      + discriminate.
+      + destruct ((0 <=? z) && (z <? Z.of_nat n)) eqn:B; [discriminate|reflexivity].
+    - rewrite (index_of_not_int n c Ez). destruct t; intros G; reflexivity.
   Qed.
 
   Theorem M_auto_refines n probes : forallb (auto_key_ok n) probes = true ->
@@ -226,15 +232,15 @@ Section Main.
   Theorem M_auto_bijection n :
     NoDup (ix_labels (M_index_auto of_Z n)) /\
     (forall i, (i < n)%nat -> nth_error (ix_labels (M_index_auto of_Z n)) i = Some (of_Z (Z.of_nat i))) /\
-    (forall i, (i < n)%nat -> M_loc_to_iloc ceqb to_Z (M_index_auto of_Z n) (of_Z (Z.of_nat i), true) = Ok (Z.of_nat i)) /\
-    (forall z, M_contains ceqb to_Z (M_index_auto of_Z n) (of_Z z, true) = true <-> 0 <= z < Z.of_nat n).
+    (forall i, (i < n)%nat -> M_loc_to_iloc ceqb to_Z (M_index_auto of_Z n) (of_Z (Z.of_nat i), KInt) = Ok (Z.of_nat i)) /\
+    (forall z, M_contains ceqb to_Z (M_index_auto of_Z n) (of_Z z, KInt) = true <-> 0 <= z < Z.of_nat n).
   Proof.
     split; [apply auto_labels_NoDup|]. split; [|split].
     - intros i H. cbn [ix_labels M_index_auto]. rewrite nth_error_map, (iota_nth n i H). reflexivity.
-    - intros i H. unfold M_loc_to_iloc, key_int. cbn [ix_map ix_labels M_index_auto fst snd].
+    - intros i H. unfold M_loc_to_iloc, positions_getitem. cbn [ix_map ix_labels M_index_auto fst snd].
       rewrite to_of. unfold zlen. rewrite map_length, iota_length.
       replace ((- Z.of_nat n <=? Z.of_nat i) && (Z.of_nat i <? Z.of_nat n)) with true by lia. reflexivity.
-    - intros z. unfold M_contains, key_int. cbn [ix_map ix_labels M_index_auto fst snd].
+    - intros z. unfold M_contains, key_int, int_typed. cbn [ix_map ix_labels M_index_auto fst snd].
       rewrite to_of. unfold zlen. rewrite map_length, iota_length. lia.
   Qed.
 
